@@ -14,7 +14,7 @@ import gen
 import vlib
 from vlib import Report, cached, cargo_build_or_die, log
 
-DEPS = c_core.DEPS + ["tools/c_feat.py"]
+DEPS = c_core.DEPS + ["tools/c_feat.py", "tools/sugar.py"]
 
 
 def _summary(kind, tier, seed, build_population, variants_fn, owner):
@@ -378,11 +378,47 @@ def check_C12(tier, seed):
                    "sequences with the same trees", extra=rep_extra)
 
 
-REGISTRY = {"C14": check_C14, "C25": check_C25, "C15": check_C15, "C12": check_C12}
+# --------------------------------------------------------------------------
+# C13: macros, repetitions, options, groups, conditional alternatives
+# --------------------------------------------------------------------------
+def macro_population(tier, seed):
+    import sugar
+    rng = random.Random(seed * 19 + 5501)
+    n = 110 if tier == "quick" else 700
+    out = []
+    for i in range(n):
+        sg = sugar.macro_grammar(rng, i)
+        sg["bound"] = (4, 5)
+        out.append(sg)
+    return out
+
+
+def check_C13(tier, seed):
+    def owner(cg, prop):
+        return "C13" if prop in ("C01", "C02", "C04", "C06", "C07", "C17", "C19", "C08") else prop + "@base"
+
+    s = _summary("macro", tier, seed, macro_population, _prec_variants, owner)
+    viol = []
+    for m, msg in s["rejected"]:
+        gid, algo, backend = m.split("_")
+        # the un-inlined expansion is LR(1) (spec); LALRPOP works on the inlined one, which then is LR(1) as well
+        viol.append({"prop": "C13", "kind": "sugared_grammar_rejected", "backend": backend, "algo": algo, "gid": gid,
+                     "start": "S", "input": [], "detail": msg, "facts": []})
+    s["disagreements"] += viol
+    return _report("C13", tier, seed, s,
+                   "random grammars built from macro templates (lists with separators, pairs, options, conditional alternatives "
+                   "with == != ~~ !~, recursive tiers, one-or-more) instantiated with terminals, nonterminals and nested macro "
+                   "uses, plus direct X* X+ X? and groups with and without selections; Macro.tla expands by substitution (a fresh "
+                   "nonterminal per distinct use), Sem.tla evaluates every input up to the bound on the expansion (only LR(1) "
+                   "expansions are compared); the parser LALRPOP generates from the sugared text must agree on acceptance, values "
+                   "(Vec order, Option, tuples) and action order")
+
+
+REGISTRY = {"C14": check_C14, "C25": check_C25, "C15": check_C15, "C12": check_C12, "C13": check_C13}
 
 
 ENGINES = [{"name": "feat", "path": "tools/c_feat.py (on top of engine core), spec/Sem.tla (inline), spec/Cfg.tla",
-            "serves_properties": ["C12", "C14", "C15", "C25"],
+            "serves_properties": ["C12", "C13", "C14", "C15", "C25"],
             "kind_free_text": "one grammar rendered in variants (inline subsets, feature sets, renamings); each variant's expected "
                               "behaviour from Sem.tla (+ Cfg.tla); replayed through the generated parsers"}]
 
@@ -397,6 +433,13 @@ def _entry(p, text, note):
 
 
 MANIFEST = [
+    _entry("C13", "Macro.tla gives each macro use, repetition, option and group the nonterminal obtained by substituting the "
+                  "arguments (conditions == != ~~ !~ evaluated on the argument), with the documented values (Vec in input order, "
+                  "Option, tuple/single of the selected symbols); Sem.tla evaluates every input up to the bound on that expansion; "
+                  "the parser generated from the sugared grammar must agree on acceptance, values and action order.",
+           "Only sugared grammars whose un-inlined expansion is LR(1) are compared (the oracle parses the expansion as written, "
+           "LALRPOP inlines X*, X?, groups); ~~ patterns are anchored literals/one-character classes; no @L/@R next to inlined "
+           "empties. Trusted: TLC, rustc, harness runtime, the renderer sugar.py."),
     _entry("C14", "Sem.tla parses the grammar as written and defers the actions of #[inline] nonterminals to their host; TLC "
                   "enumerates every input up to the bound for each subset of inlinable nonterminals; the parser generated for each "
                   "variant must agree on accept/reject, value, user error and action order.",
